@@ -24,3 +24,32 @@ Theorem C10_opt_le_lca : forall S c O r, leaves_ok S O -> optimal S c O r ->
   ele (cost c O r) (cost c O (lca_rec O)).
 Proof. exact dtl_le_lca. Qed.
 Print Assumptions C10_opt_le_lca.
+
+(** extended never exceeds base (labelled solvers) *)
+From SR Require Import Model.Subseq Model.Spfs Model.Uspfs Proofs.SubseqProofs Proofs.LabelCostProofs
+  Proofs.SpfsProofs Proofs.SpfsFinal Proofs.UspfsProofs Proofs.UspfsFinal.
+
+Theorem C10_ext_le_base_ordered : forall S c orders O e e' lt lt',
+  nn (c_hgt c) -> coherent_ord c -> orders_ok S O orders ->
+  spfs S c RALL true orders O = Some e -> spfs S c RALL false orders O = Some e' ->
+  In lt (tags e) -> In lt' (tags e') -> ele (cost_of c O lt) (cost_of c O lt').
+Proof.
+  intros S c orders O e e' lt lt' Hh Hc HO E E' I I'.
+  apply (ext_spfs_optimum S c orders O e Hh Hc HO E) in I as [_ Opt].
+  apply (base_spfs_optimum S c orders O e' Hh Hc HO E') in I' as [[ord [Io [V _]]] _].
+  eapply Opt; eauto.
+Qed.
+Print Assumptions C10_ext_le_base_ordered.
+
+Theorem C10_ext_le_base_unordered : forall S c O E E' t t',
+  nn (c_hgt c) -> ucoherent c -> leaves_ok S O ->
+  uspfs S c RALL true O = Some E -> uspfs S c RALL false O = Some E' ->
+  In t (tags E) -> In t' (tags E') -> ele (ucost c O t) (ucost c O t').
+Proof.
+  intros S c O E E' t t' Hh Hc L HE HE' I I'.
+  assert (RALL <> RNONE) as N by discriminate.
+  destruct (superdtl_solutions_optimal S c RALL true O E t Hh Hc L N HE I) as [_ Opt].
+  destruct (superdtl_solutions_optimal S c RALL false O E' t' Hh Hc L N HE' I') as [[V _] _].
+  apply Opt. split; [exact V|discriminate].
+Qed.
+Print Assumptions C10_ext_le_base_unordered.
